@@ -210,7 +210,8 @@ func init() {
 				var gns []*der.Node
 				var labels []string
 				for k := 0; k < 1+rng.Intn(4); k++ {
-					e := gen.GNPool[rng.Intn(31)] // the dns-* block of the pool
+					dp := gen.DNSPool()
+					e := dp[rng.Intn(len(dp))]
 					gns = append(gns, e.Node())
 					labels = append(labels, e.Label)
 				}
